@@ -56,6 +56,10 @@ func (c *chunkedBodyWriter) Write(p []byte) (n int, err error) {
 		}
 		c.wroteHeader = true
 	}
+	if len(p) == 0 {
+		// An empty chunk is the end-of-body mark of chunked encoding; only Finalize writes it.
+		return 0, nil
+	}
 	if err = ext.WriteChunk(c.w, p, false); err != nil {
 		return
 	}
